@@ -132,9 +132,6 @@ func registerCrypto(p *Program) {
 		}
 		// the cipher spec is identified by its sizes (key, salt, tag) and constructor identity
 		specKey := fmt.Sprintf("spec#%d", spec.C.ID)
-		if spec.C.Name != "" {
-			specKey = spec.C.Name
-		}
 		salt := e.sliceTerms(a[1].(SliceV))
 		t := types.NewPointer(e.prog.namedType(chachaT, "chacha20poly1305"))
 		c := e.newCell(t.Elem())
@@ -177,9 +174,16 @@ func registerCrypto(p *Program) {
 			return ns
 		}
 		ptT := e.sliceTerms(pt) // concretises the plaintext length
+		// ciphertext body: arbitrary bytes; tag: a concrete value unique to this Seal, so two
+		// different encryptions are never equal (their collision probability is negligible) while
+		// attacker-chosen bytes may still equal a recorded ciphertext (a replay)
 		ct := make([]*Term, len(ptT)+16)
-		for i := range ct {
+		for i := range ptT {
 			ct[i] = e.fresh("ct", BV(8))
+		}
+		tagSum := sha1.Sum([]byte(fmt.Sprintf("seal-tag-%d", len(st.recs))))
+		for i := 0; i < 16; i++ {
+			ct[len(ptT)+i] = e.tc.Const(8, uint64(tagSum[i]))
 		}
 		rec := &sealRec{class: inst.class, salt: inst.salt, nonce: e.sliceTerms(nonce), pt: ptT, ct: ct, id: len(st.recs)}
 		st.recs = append(st.recs, rec)
